@@ -218,7 +218,8 @@ def recovery_rules(chk, prog, r):
                     assigned = False
                     for b2 in r.reachable(r.succs(blk)):
                         for st in r.blocks[b2]["stmts"]:
-                            if "pl" in st and st["pl"]["l"] == dest and st["pl"]["p"] and st["pl"]["p"][0][0] == "d" and len(st["pl"]["p"]) == 1:
+                            from ..fmt import _deref_chain as _dc
+                            if "pl" in st and (st["pl"]["l"] == dest or _dc(r, st["pl"]["l"]) == dest) and st["pl"]["p"] and st["pl"]["p"][0][0] == "d" and len(st["pl"]["p"]) == 1:
                                 v = core.describe(prog, r, st["rv"]["o"]) if st["rv"]["k"] == "use" else None
                                 if v and desc_contains(v, lambda y: y[0] == "call" and y[1].endswith("pool::Thread::new")):
                                     assigned = True
